@@ -264,6 +264,14 @@ Verdict run(const Json::Value& c) {
       e = checkEq("/r", s, "/r/", "/" + s + "/");
       if (e.empty()) e = checkEq("/r", s, "/r", x);
       if (e.empty()) e = checkEq("/r", s, "/", "r/" + s);
+      // the same absolute path reached from a deeper cgroup fs root
+      {
+        auto comps = vpm::splitPath(s);
+        for (size_t k = 1; k <= comps.size() && e.empty(); k++) {
+          std::vector<std::string> rest(comps.begin() + k, comps.end());
+          e = checkEq("/r", s, "/r/" + vpm::joinPath(comps, k), vpm::joinPath(rest, rest.size()));
+        }
+      }
       if (!e.empty()) {
         v.fail(e);
         return v;
